@@ -171,6 +171,9 @@ def check_case(case):
     if case["kind"] == "interaction" and case["order_seed"] % 3 != 0:
         # the chains' tables agree to about nine digits but not bit for bit (each chain file is a collection of its own)
         chains = [[dict(p_, table=[[c_, t_, (x_ if t_ == -1 else x_ * (1.0 - ci_ * 3e-10))] for c_, t_, x_ in p_["table"]]) for p_ in ch_] for ci_, ch_ in enumerate(chains)]
+    # consecutive samples whose blocks are EQUAL as numbers but not bit for bit: every zero of W0 / V0 / V1 of the odd samples is -0.0
+    flip_ = lambda x_: [flip_(y_) for y_ in x_] if isinstance(x_, list) else (-x_ if x_ == 0 else x_)
+    chains = [[(dict(p_, **{k_: flip_(p_[k_]) for k_ in ("W0", "V0", "V1") if k_ in p_}) if (j_ % 2 == 1 and case["order_seed"] % 2 == 0) else p_) for j_, p_ in enumerate(ch_)] for ch_ in chains]
     holders = [S.build_holder(ch) for ch in chains]
     paths = []
     try:
